@@ -66,6 +66,7 @@ def runEvent (sv : Server) (now : Nat) : Event → String × Option Server
     | .error _ => ("busy:err", some sv)
     | .ok (c, _, _) => ("busy:ok", some { sv with cache := c })
   | .step adopt =>
+    if sv.seqs.all (·.isNone) then ("step:idle", some sv) else
     match processBatch sv adopt with
     | .error .badHint => ("step:bad-hint", none)
     | .error _ => ("step:err", none)
